@@ -652,14 +652,18 @@ theorem lemma_matches_mapOf (ty : Ty) (cur a : Option Val) (h : matchesAdm ty cu
       rw [lemma_mapOf_norm c, h, ← lemma_mapOf_norm, lemma_mapOf_zero]
       rfl
 
+/-- the admissible value after an outcome `e` of a phase: untouched keeps `a`, a value replaces it -/
+def keepOr (a : Option Val) : Option Val → Option Val
+  | none => a
+  | some x => some x
+
 /-- one phase on a leaf: the admissible value before, the outcome the oracle admitted for the
     phase, the admissible value after -/
 theorem lemma_matches_step (l : Leaf) (v0 v1 : Val) (a e : Option Val)
     (hm : matchesAdm l.ty (valAt v0 l.path) a = true) (hh : holds v0 v1 l e = true) :
-    matchesAdm l.ty (valAt v1 l.path) (match e with
-      | none => a
-      | some x => some x) = true := by
+    matchesAdm l.ty (valAt v1 l.path) (keepOr a e) = true := by
   unfold holds at hh
+  unfold keepOr
   cases e with
   | some x =>
     simp only at hh ⊢
